@@ -19,11 +19,12 @@ INFTY = float('inf')
 
 
 class V:
-    __slots__ = ('lo', 'hi', 'f', 'inp', 'vf')
+    __slots__ = ('lo', 'hi', 'f', 'inp', 'vf', 'lt')
 
-    def __init__(self, lo, hi, f=False, inp=False, vf=None):
+    def __init__(self, lo, hi, f=False, inp=False, vf=None, lt=None):
         self.lo, self.hi, self.f, self.inp = lo, hi, f, inp
         self.vf = vf          # containers for which the value was validated (`< size`) when it was stored into member state
+        self.lt = lt          # containers X for which `value < X.size()` holds right now (set on the value a callee returns)
 
     def __repr__(self):
         return '[%s, %s]%s' % (self.lo, self.hi, 'f' if self.f else '')
@@ -35,7 +36,8 @@ class V:
         if o is None:
             return self
         vf = (self.vf & o.vf) if (self.vf is not None and o.vf is not None) else None
-        return V(min(self.lo, o.lo), max(self.hi, o.hi), self.f or o.f, self.inp or o.inp, vf)
+        lt = (self.lt & o.lt) if (self.lt is not None and o.lt is not None) else None
+        return V(min(self.lo, o.lo), max(self.hi, o.hi), self.f or o.f, self.inp or o.inp, vf, lt)
 
     def eq(self, o):
         return o is not None and self.lo == o.lo and self.hi == o.hi and self.f == o.f
@@ -70,7 +72,7 @@ def convert(v, t):
             return V(r.lo, r.hi, False, v.inp)
         lo, hi = int(math.trunc(lo)), int(math.trunc(hi))
     if lo >= r.lo and hi <= r.hi:
-        return V(lo, hi, False, v.inp, v.vf)
+        return V(lo, hi, False, v.inp, v.vf, v.lt if not v.f else None)
     if t.get('bool'):
         return V(0, 1, False, v.inp)
     return V(r.lo, r.hi, False, v.inp, v.vf if (t.get('u') and v.lo >= 0) else None)
@@ -470,9 +472,12 @@ class Engine2:
             sub.optimistic = self.optimistic
             sub.depth = self.depth + 1
             s0 = St()
-            for p, a in zip(cf.params, avals):
+            for p, a, ae in zip(cf.params, avals, args):
                 if a is not None:
                     s0.env[('v', p['id'])] = convert(a, p['t']) if trange(p['t']) else a
+                cont = self.size_container(ae, st)
+                if cont and (p['t'] or {}).get('w') == 64 and not (p['t'] or {}).get('ref'):
+                    s0.facts.add(('is_size', ('v', p['id']), cont))
             try:
                 sub.run(cf, s0, record=False)
             except RecursionError:
@@ -585,7 +590,38 @@ class Engine2:
                 return short(o['n'])
         return None
 
-    def refine(self, c, pol, st):
+    def _bool_def(self, vid):
+        """initialiser of a local that is defined once, never reassigned, and whose initialiser reads only constants and variables
+        that are never written in this function (so it still says the same thing wherever the local is tested)"""
+        fn = self.fn
+        c = getattr(fn, '_e2_booldefs', None)
+        if c is None:
+            sd = single_defs(fn.d)
+            assigned = set()
+            for b in fn.d['blocks']:
+                for st_ in b['stmts']:
+                    for x in walk(st_['s']):
+                        tgt = None
+                        ap = assign_parts(x)
+                        if ap:
+                            tgt = ap[0]
+                        elif is_incdec(x) or (x.get('k') == 'UnaryOperator' and x.get('op') == '&'):
+                            tgt = x['e']
+                        if tgt is not None and strip(tgt).get('k') == 'DeclRefExpr':
+                            assigned.add(strip(tgt)['id'])
+            c = {}
+            for i, e in sd.items():
+                if not (e.get('t') or {}).get('bool') and strip(e).get('k') not in ('BinaryOperator', 'UnaryOperator'):
+                    continue
+                pure = all(not ('callee' in y or y.get('k') in ('MemberExpr', 'ArraySubscriptExpr') or (y.get('k') == 'UnaryOperator' and y.get('op') in ('*', '++', '--')))
+                           for y in walk(e))
+                stable = all(y.get('id') not in assigned for y in walk(e) if y.get('k') == 'DeclRefExpr' and 'c' not in y)
+                if pure and stable:
+                    c[i] = e
+            fn._e2_booldefs = c
+        return c.get(vid)
+
+    def refine(self, c, pol, st, depth=0):
         c = strip_keep(c)
         if c is None:
             return
@@ -609,6 +645,10 @@ class Engine2:
             return
         # truthiness of a variable
         key = self.key_of(c)
+        if key is not None and key[0] == 'v' and depth < 3:
+            d = self._bool_def(key[1])
+            if d is not None:
+                self.refine(d, pol, st, depth + 1)      # a named condition: `const bool ok = a && b; if(!ok) return;`
         if key is not None:
             cur = self.ev_inner(c, st)      # the variable's own value, not its conversion to bool
             if cur is not None and not cur.f:
@@ -747,6 +787,8 @@ class Engine2:
                         ok = True
                     elif idx is not None and not idx.f and idx.lo >= 0 and idx.hi <= self.min_sizes[nm] - 1:
                         ok = True
+                    elif idx is not None and idx.lt and nm in idx.lt:
+                        ok = True           # the index is the value a helper returned with `< size` established
                     validated = bool(idx is not None and idx.vf and nm in idx.vf)
                     self.obl.append(Obligation2(self.fn.name, x.get('ln'), show(x), idx, 'size(%s)>=%d' % (nm, self.min_sizes[nm]), ok,
                                                 bool(idx is not None and idx.inp) and not validated, kind='vector'))
@@ -767,6 +809,24 @@ class Engine2:
                 break
         for cont, ms in self.min_sizes.items():
             if (k2 is not None and ('lt_size', k2, cont) in st.facts) or (v is not None and not v.f and v.lo >= 0 and v.hi <= ms - 1):
+                out.add(cont)
+        return out
+
+    def _lt_now(self, e, v, st):
+        out = set(v.lt or ())
+        k2 = None
+        e2 = e
+        while isinstance(e2, dict) and k2 is None:
+            k2 = self.key_of(e2)
+            if k2 is None and e2.get('k', '').endswith('CastExpr') and 'e' in e2:
+                cv = self.ev(e2['e'], st)
+                if cv is None or cv.f or cv.lo != v.lo or cv.hi != v.hi:
+                    break           # the cast may change the value
+                e2 = e2['e']
+            else:
+                break
+        for cont, ms in self.min_sizes.items():
+            if (k2 is not None and ('lt_size', k2, cont) in st.facts) or (not v.f and v.lo >= 0 and v.hi <= ms - 1):
                 out.add(cont)
         return out
 
@@ -816,6 +876,11 @@ class Engine2:
             st.env.pop(key, None)
         else:
             st.env[key] = val
+            if val.lt:
+                if key[0] == 'v' and op == '=':
+                    for c in val.lt:
+                        st.facts.add(('lt_size', key, c))
+                st.env[key] = V(val.lo, val.hi, val.f, val.inp, val.vf)     # the relation lives in the facts from here on
 
     def exec_expr(self, e, st):
         self.check_expr(e, st)
@@ -966,7 +1031,11 @@ class Engine2:
             self.visited.add((s.get('ln'), k))
             if s.get('e') is not None:
                 self.exec_expr(s['e'], st)
-                self.returns.append(self.ev(s['e'], st))
+                rv = self.ev(s['e'], st)
+                if rv is not None and not rv.f and self.depth > 0:
+                    # the relation `returned value < X.size()` survives the return (helpers that wrap or clamp an index)
+                    rv = V(rv.lo, rv.hi, rv.f, rv.inp, rv.vf, frozenset(self._lt_now(s['e'], rv, st)))
+                self.returns.append(rv)
             if self.record_stores:
                 self.flush(st)
             return None, [('return', st)]
@@ -1000,6 +1069,11 @@ class Engine2:
                     val = self.ev(v['init'], st)
                     if val is not None and trange(v['t']) is not None:
                         st.env[key] = convert(val, v['t'])
+                        if st.env[key].lt:
+                            for c in st.env[key].lt:
+                                st.facts.add(('lt_size', key, c))
+                            cv = st.env[key]
+                            st.env[key] = V(cv.lo, cv.hi, cv.f, cv.inp, cv.vf)
                     else:
                         st.env.pop(key, None)
                     cont = self.size_container(v['init'])
